@@ -5,10 +5,11 @@ package memberlist
 // Stream-path harness (C09; stream halves of C12 C13 C14 C15 C16): real pushPullNode /
 // sendUserMsg / sendPingAndWaitForAck on an initiator writing into a recording connection,
 // real handleConn on a host reading genuine, cut (every prefix), tampered, mislabelled,
-// oversized and hostile byte streams from a fake connection; real Join between two nodes over
+// oversized (declared sizes, decompression bombs) and hostile byte streams from a fake connection; the exported
+// stream label functions on one and on several interleaved streams; real Join between two nodes over
 // in-memory pipes with vetoing merge delegates; verifyProtocol on random version matrices.
 // Internal surface used: newMemberlist, pushPullNode, sendUserMsg, sendPingAndWaitForAck,
-// handleConn, verifyProtocol, aliveNode, nodeMap, encode.
+// handleConn, verifyProtocol, aliveNode, nodes/nodeMap, encode.
 
 import (
 	"bytes"
@@ -529,8 +530,9 @@ func vtRound(r *vfRng, st *vfStats, allCuts bool, round int) []vfCase {
 			}
 		}
 	}
-	// ---- other label ----
-	for _, other := range []string{"", "blu", "blue2", "red"} {
+	// ---- other label: unrelated ones, prefixes / extensions, and labels that differ from the sender's only in
+	//      letter case or a surrounding blank (a node acts on traffic carrying EXACTLY its label) ----
+	for _, other := range append([]string{"", "blu", "blue2", "red"}, vwNearLabels(label)...) {
 		if other == label {
 			continue
 		}
@@ -736,6 +738,41 @@ func vtRound(r *vfRng, st *vfStats, allCuts bool, round int) []vfCase {
 		ch.m.pushPullReq.Store(0)
 		out = append(out, vtFeedCase(6, chc, cic, creq[:vfMin(len(creq), 300)], f, false, true, st))
 	}
+	// ---- a decompression bomb on the stream path: a compressed (and, with keys, encrypted) push/pull whose node
+	//      count and user-state length are inside their own limits and which is tiny on the wire, but which inflates
+	//      beyond the cap on decompressed data (40 MiB).  Written by a real initiator whose member list carries large,
+	//      highly compressible metadata.  The receiver must refuse it before any of it is merged or handed to a
+	//      delegate.  A twin below the cap, built the same way, must be merged (so the refusal is not an accident of
+	//      the construction).  One or two per run: the two fixed rounds, rarely afterwards. ----
+	if round < 2 || r.chance(8) {
+		const capBytes = 40 << 20
+		meta := r.pick([]int{64 << 10, 256 << 10, 1 << 20})
+		var bigU []byte
+		budget := capBytes
+		if r.chance(35) {
+			// the user state alone is at (not over) its own limit; the node list takes the total over the cap
+			bigU = make([]byte, 20<<20)
+			budget -= len(bigU)
+		}
+		bc := ic
+		bc.name = "bomber"
+		bjoin := r.chance(50)
+		twinN := 3 + r.n(6)
+		twin := vtBulkRequest(bc, twinN, meta, []byte("twin-state"), addr, bjoin)
+		bomb := vtBulkRequest(bc, budget/meta+1, meta, bigU, addr, bjoin)
+		if len(twin) > len(lh) && len(bomb) > len(lh) {
+			ht := vtMake(hc, []string{"ha"}, []byte("H-state"), nil, false)
+			ft := ht.feed(twin, 0)
+			eff := ht.lists("bomber") && ht.lists("big-0") && ht.lists(fmt.Sprintf("big-%d", twinN-1)) && ft.wrote &&
+				len(ht.del.merged) == 1 && bytes.Equal(ht.del.merged[0], []byte("twin-state"))
+			// (no framing-model tables for these: the decompressed bytes would run to megabytes)
+			out = append(out, vtFeedCase(1, hc, bc, twin[:vfMin(len(twin), 300)], ft, eff, false, st))
+			hb := vtMake(hc, []string{"ha"}, []byte("H-state"), nil, false)
+			fb := hb.feed(bomb, r.pick([]int{0, 0, 1000}))
+			out = append(out, vtFeedCase(11, hc, bc, bomb[:vfMin(len(bomb), 300)], fb, false, false, st))
+			st.Extra["bomb_wire_bytes"] = len(bomb)
+		}
+	}
 	// oversized declared sizes on a plaintext stream
 	for _, hdr := range []pushPullHeader{{Nodes: 1 << 21}, {Nodes: 0, UserStateLen: 21 * 1024 * 1024}, {Nodes: -1}} {
 		b, _ := encode(pushPullMsg, &hdr, false)
@@ -763,6 +800,28 @@ func vtRound(r *vfRng, st *vfStats, allCuts bool, round int) []vfCase {
 		out = append(out, vtFeedCase(4, pc, pic, s2, ph.feed(s2, 0), false, true, st))
 	}
 	return out
+}
+
+// the push/pull request a real initiator writes (real sendLocalState: msgpack encoding, compression, encryption,
+// label header) when its member list holds n further live members with meta zero bytes of metadata each
+func vtBulkRequest(c vwNodeCfg, n, meta int, ustate []byte, addr Address, join bool) []byte {
+	c.compress = true
+	ini := vtMake(c, nil, ustate, nil, false)
+	blob := make([]byte, meta)
+	ini.m.nodeLock.Lock()
+	for i := 0; i < n; i++ {
+		ns := &nodeState{Node: Node{Name: fmt.Sprintf("big-%d", i), Addr: net.IP{10, 9, byte(i >> 8), byte(i)}, Port: 7946, Meta: blob,
+			PMin: 1, PMax: 5, PCur: c.pv}, Incarnation: 1, State: StateAlive}
+		ini.m.nodes = append(ini.m.nodes, ns)
+		ini.m.nodeMap[ns.Name] = ns
+	}
+	ini.m.nodeLock.Unlock()
+	rec := &vtConn{}
+	ini.tr.next = func() net.Conn { return rec }
+	ini.m.pushPullNode(addr, join)
+	ini.tr.next = nil
+	synctest.Wait()
+	return append([]byte(nil), rec.wr.Bytes()...)
 }
 
 func vfMin(a, b int) int {
@@ -973,8 +1032,8 @@ func (c *vtFrags) Read(p []byte) (int, error) {
 	return n, nil
 }
 
-func vtLabelStream(r *vfRng, st *vfStats) vfCase {
-	label := ""
+// one labelled stream as its sender writes it: label, payload, and the fragments the receiver's Read calls deliver
+func vtGenLabelStream(r *vfRng) (label string, payload []byte, frags [][]byte) {
 	switch r.n(6) {
 	case 0:
 	case 1:
@@ -984,7 +1043,7 @@ func vtLabelStream(r *vfRng, st *vfStats) vfCase {
 	default:
 		label = string(bytes.Repeat([]byte{byte('a' + r.n(26))}, 1+r.n(40)))
 	}
-	payload := make([]byte, r.pick([]int{0, 1, 10, 100, 600, 3000, 4090, 4096, 5000}))
+	payload = make([]byte, r.pick([]int{0, 1, 10, 100, 600, 3000, 4090, 4096, 5000}))
 	for i := range payload {
 		payload[i] = byte(r.n(256))
 	}
@@ -1002,7 +1061,6 @@ func vtLabelStream(r *vfRng, st *vfStats) vfCase {
 		stream = [][]byte{{244}, {244, 0}, {244, 0, 1, 2}, {244, 5, 'a', 'b'}, {244, 3, 'a', 'b'}, {}}[r.n(6)]
 	}
 	// the sender's writes
-	var frags [][]byte
 	for rest := stream; len(rest) > 0; {
 		n := r.pick([]int{1, 2, 3, 7, 100, 512, 4096, 8192})
 		if r.chance(30) {
@@ -1014,6 +1072,11 @@ func vtLabelStream(r *vfRng, st *vfStats) vfCase {
 		frags = append(frags, append([]byte(nil), rest[:n]...))
 		rest = rest[n:]
 	}
+	return label, payload, frags
+}
+
+func vtLabelStream(r *vfRng, st *vfStats) vfCase {
+	label, payload, frags := vtGenLabelStream(r)
 	c := vfCase{Cfg: []int64{15}}
 	for _, f := range frags {
 		c.Ops = append(c.Ops, vwB(f))
@@ -1040,6 +1103,69 @@ func vtLabelStream(r *vfRng, st *vfStats) vfCase {
 	st.Ops++
 	st.OpHist["label_stream"]++
 	st.class(fmt.Sprintf("15|%d|%d|%d|%v", len(label), len(payload)/1000, len(frags)/10, err != nil))
+	return c
+}
+
+// ---- several labelled streams open at the same time (a listener strips the header of every accepted connection
+//      before any of them is read further): header removed from A, header removed from B (and C), only then the
+//      rest of each is read, the reads interleaved.  Each stream must give back its own label and its own payload,
+//      whatever the others carried.  ops: [stream index; fragment bytes...]; obs: per stream [error], label, bytes ----
+func vtLabelStreams(r *vfRng, st *vfStats) vfCase {
+	k := 2 + r.n(2)
+	c := vfCase{Cfg: []int64{16, int64(k)}, Ops: [][]int64{}}
+	conns := make([]net.Conn, k)
+	labs := make([]string, k)
+	errs := make([]error, k)
+	got := make([][]byte, k)
+	nfr, total := 0, 0
+	for i := 0; i < k; i++ {
+		_, payload, frags := vtGenLabelStream(r)
+		if r.chance(50) {
+			// written by the sender in one piece: header and the first payload bytes arrive together and are read
+			// ahead while the header is looked at
+			var all []byte
+			for _, f := range frags {
+				all = append(all, f...)
+			}
+			frags = nil
+			if len(all) > 0 {
+				frags = [][]byte{all}
+			}
+		}
+		for _, f := range frags {
+			c.Ops = append(c.Ops, append([]int64{int64(i)}, vwB(f)...))
+		}
+		nfr += len(frags)
+		total += len(payload)
+		conns[i], labs[i], errs[i] = RemoveLabelHeaderFromStream(&vtFrags{frags: frags})
+	}
+	sizes := []int{1, 3, 7, 64, 500, 4096, 10000}
+	var open []int
+	for i := 0; i < k; i++ {
+		if errs[i] == nil {
+			open = append(open, i)
+		}
+	}
+	sequential := r.chance(30) // each stream drained in turn (in a random order) instead of read by read
+	for step := 0; len(open) > 0 && step < 1000000; step++ {
+		j := r.n(len(open))
+		if sequential {
+			j = 0
+		}
+		i := open[j]
+		buf := make([]byte, sizes[r.n(len(sizes))])
+		n, rerr := conns[i].Read(buf)
+		got[i] = append(got[i], buf[:n]...)
+		if rerr != nil {
+			open = append(open[:j], open[j+1:]...)
+		}
+	}
+	for i := 0; i < k; i++ {
+		c.Obs = append(c.Obs, []int64{vwBool(errs[i] != nil)}, vwB([]byte(labs[i])), vwB(got[i]))
+	}
+	st.Ops++
+	st.OpHist["label_streams_interleaved"]++
+	st.class(fmt.Sprintf("16|%d|%d|%d|%v", k, total/2000, nfr/10, sequential))
 	return c
 }
 
@@ -1093,7 +1219,7 @@ func vtVerify(r *vfRng, st *vfStats) vfCase {
 
 func TestVfStream(t *testing.T) {
 	st := vfNewStats("stream")
-	st.Rule = "per round one initiator/host configuration (label x keys x encryption version x compression x user state): every stream write is checked for framing and sealing; the host is fed the genuine request whole (5 fragmentations), cut at every offset (all offsets for streams <= 120 B, first 40 + 50 random + last ones otherwise; all in the thorough tier), tampered in every header byte and sampled body bytes, under a foreign / removed key, under 4 other labels, with empty / one-byte authentic plaintexts, with declared sizes beyond each cap, mutated and random plaintext; the initiator is fed every cut of the reply; user messages incl. the empty one; TCP ping; Join with vetoing / incompatible sides; verifyProtocol matrices over {0..3}; distinct = distinct (kind, class, changed, wrote, delegate calls, panic, #keys, version) tuples"
+	st.Rule = "per round one initiator/host configuration (label x keys x encryption version x compression x user state): every stream write is checked for framing and sealing; the host is fed the genuine request whole (5 fragmentations), cut at every offset (all offsets for streams <= 120 B, first 40 + 50 random + last ones otherwise; all in the thorough tier), tampered in every header byte and sampled body bytes, under a foreign / removed key, under 4 other labels and the labels differing from its own only in letter case or a surrounding blank, with empty / one-byte authentic plaintexts, with declared sizes beyond each cap, with a compressed exchange inflating beyond the decompression cap (and its twin below the cap; the two fixed rounds, 8% of the others), mutated and random plaintext; the initiator is fed every cut of the reply; user messages incl. the empty one; TCP ping; the exported stream label functions on one fragmented stream and on 2-3 streams whose headers are all removed before the rest of each is read (interleaved reads); Join with vetoing / incompatible sides; verifyProtocol matrices over {0..3}; distinct = distinct (kind, class, changed, wrote, delegate calls, panic, #keys, version) tuples"
 	var cases []vfCase
 	r := &vfRng{s: vfSeed()*86028121 + 60}
 	n := vfEnvInt("VF_N", 6)
@@ -1109,6 +1235,9 @@ func TestVfStream(t *testing.T) {
 			}
 			for k := 0; k < 8; k++ {
 				cases = append(cases, vtLabelStream(r, st))
+			}
+			for k := 0; k < 8; k++ {
+				cases = append(cases, vtLabelStreams(r, st))
 			}
 			time.Sleep(3 * time.Hour)
 		})
